@@ -17,15 +17,29 @@ def link_paths(rng, n):
     for k in range(n):
         a, b = rng.sample(['a', 'b'], 2)
         if k % 2:
-            flags = rng.choice([(False, True, False), (False, True, True), (True, False, False), (False, False, True), (True, True, False)])
+            flags = rng.choice([(False, True, False), (False, True, True), (True, False, False), (False, False, True), (True, True, False), (True, False, True), (True, False, True)])
             ops = [('construct', dict(x=a, k='s', price=0, cf=0)), ('construct', dict(x=b, k='s', price=0, cf=0)),
                    ('set_flow', dict(x=a, p='l', c=1, v=8)), ('set_flow', dict(x=b, p='l', c=1, v=4)), ('set_flow', dict(x=b, p='l', c=2, v=4))]
-            reads = [('vget', dict(x=b, p='l', c=1, view=rng.choice(['vol', 'mass']), how=rng.choice(['indexer', 'array']))),
-                     ('uget', dict(x=b, p='l', c=1, units=rng.choice(['m3/hr', 'kg/hr', 'L/min'])))]
-            ops += reads
+            bp = 'l'
+            if rng.random() < 0.5:
+                ops.append(('set_phase', dict(x=b, p='g')))         # the two streams differ in phase before they are linked
+                bp = 'g'
+            reads = [('vget', dict(x=b, p=bp, c=1, view=rng.choice(['vol', 'mass']), how=rng.choice(['indexer', 'array']))),
+                     ('uget', dict(x=b, p=bp, c=1, units=rng.choice(['m3/hr', 'kg/hr', 'L/min'])))]
+            if rng.random() < 0.7:
+                ops += reads
+            if rng.random() < 0.5:
+                ops.append(('vget', dict(x=a, p='l', c=1, view=reads[0][1]['view'], how=reads[0][1]['how'])))
             ops.append(('link_with', dict(d=b, x=a, flow=flags[0], phase=flags[1], TP=flags[2])))
-            ops.append(rng.choice([('set_phase', dict(x=a, p='g')), ('set_T', dict(x=a, T=350)), ('set_flow', dict(x=a, p='l', c=1, v=12))]))
-            ops += [('vget', dict(x=b, p='g' if (flags[1] and ops[-1][0] == 'set_phase') else 'l', c=1, view=reads[0][1]['view'], how=reads[0][1]['how'])),
+            if flags[1]:
+                bp = 'l'
+            mut = rng.choice([('set_phase', dict(x=a, p='g')), ('set_T', dict(x=a, T=350)), ('set_flow', dict(x=a, p='l', c=1, v=12)), None])
+            if mut:
+                ops.append(mut)
+                if flags[1] and mut[0] == 'set_phase':
+                    bp = 'g'
+            ops += [('vget', dict(x=b, p=bp, c=1, view=reads[0][1]['view'], how=reads[0][1]['how'])),
+                    ('vget', dict(x=b, p=bp, c=1, view='vol', how='array')),
                     ('tget', dict(x=b, which=rng.choice(['F_vol', 'F_mass', 'F_mol'])))]
         else:
             ops = [('construct', dict(x=a, k='m', price=0, cf=0)), ('construct', dict(x=b, k='m', price=0, cf=0)),
